@@ -50,6 +50,7 @@ class Ctx:
 
     def start_shell(self, statedir, env=None):
         self.sh = ShellD(self.variant, statedir, env=env)
+        self.sh.inplace = (self.store == "db")
         self.p = P.P11(self.sh)
         return self.p
 
